@@ -8,6 +8,7 @@ from . import rules_ord as RO
 from . import rules_ua as RU
 from . import rules_eo as RE
 from . import rules_must as RM
+from . import rules_wp as RWP
 
 ASSUMPTIONS = [
     "rustc's MIR construction, type checking and callee resolution (facts are read from the compiler's own built MIR)",
@@ -41,7 +42,7 @@ def _run(ctx, func):
 
 def evaluate(pid, ctx):
     out = []
-    seen = set()
+    seen = {}
     for entry in PROPS[pid]['rules']:
         func, names = entry[0], entry[1]
         keys = entry[2] if len(entry) > 2 else None
@@ -50,15 +51,22 @@ def evaluate(pid, ctx):
                 continue
             if keys is not None and not any((i.key.startswith(k[1:]) if k.startswith('^') else k in i.key) for k in keys) and not i.key.startswith('analysis:'):
                 continue
-            if i.ident() in seen:
-                continue
-            seen.add(i.ident())
             if not i.loc and i.fn:
                 f = ctx.F.fn(i.fn)
                 if f:
                     i.loc = '%s:%s' % (f.file, f.line)
+            if i.ident() in seen:
+                # the same instance reported twice (a rule shared by two groups, or two sites with one key): the worse verdict stands
+                j = seen[i.ident()]
+                if RANK.get(i.verdict, 0) > RANK.get(out[j].verdict, 0):
+                    out[j] = i
+                continue
+            seen[i.ident()] = len(out)
             out.append(i)
     return out
+
+
+RANK = {'ok': 0, 'known': 1, 'undecided': 2, 'violation': 3}
 
 
 PROPS = {}
@@ -98,7 +106,7 @@ G_CORE = [(RP.tok_exec, None), (RP.tok_leak, None), (RP.tok_resched, None), (RP.
           (RL.try_rule, None), (RL.lo, None), (RL.bl, None),
           (RO.c03_dormant, None), (RO.c10_fetch, None), (RO.c10_thread, None), (RO.c10_spawn, None), (RO.c02_append, None), (RO.c06_drain, None),
           (RO.c07_own, None), (RO.c07_signal, None), (RO.c08, None, ['result-after-scheduler', 'polls-with-callers-context', 'drop-order']),
-          (RO.free_delegates, None), (RO.rs_strength, None, ['SchedulerCore']), (RW.lw_owner, None), (RU.ua_leak, None), (RM.must, None),
+          (RO.free_delegates, None), (RO.rs_strength, None, ['SchedulerCore']), (RW.lw_owner, None), (RU.ua_leak, None), (RM.must, None), (RWP.wp, None),
           (RE.eo, None, ['^SchedulerCore::', '^<SchedulerCore::', '^JobQueue::', '^<JobQueue::', '^Scheduler::', '^<Scheduler::', '^<WakeQueue', '^<WakeThread', '^<SchedulerFuture', '^SchedulerFuture', '^<ActiveQueue', '^<UnsafeJob', '^FutureJob::', '^SchedulerThread::'])]
 G_ORDER = [(RO.c02_append, None), (RO.free_delegates, None, ['|delegates']), (RQ.qd_queue, None), (RP.tr_immediate, None), (RP.tr_sibling, None, ['sync']), (RP.tok_requeue, None),
            (RP.pa_rules, {'PA-excl', 'PA'}), (RP.tok_exec, None)]
